@@ -54,10 +54,21 @@ func c14CanaryAlwaysDecided(r *Run, rule string) {
 				}
 			}
 		}
-		// targets: status writes
+		// targets: status writes, in this function or in a helper it calls (the write extracted into
+		// a function): the call site is then the target
 		for _, ci := range callsIn(fn) {
 			e := clientEffect(fn, ci)
-			if e == nil || !e.Status || e.Verb != "Update" {
+			isTarget := e != nil && e.Status && e.Verb == "Update"
+			if !isTarget {
+				if cal := staticCallee(ci.Common()); cal != nil && r.Prog.IsRuleSite(cal) {
+					for _, e2 := range effectsOf(r.Prog.reachableFuncs(cal)) {
+						if e2.Status && e2.Verb == "Update" && shortKind(e2.Kind) == "ExtendedDaemonSet" {
+							isTarget = true
+						}
+					}
+				}
+			}
+			if !isTarget {
 				continue
 			}
 			n++
